@@ -12,6 +12,7 @@ type BankSpec struct {
 	R      []Result `json:"r"`
 	Err    bool     `json:"err"`
 	Err2   bool     `json:"err2,omitempty"`
+	ErrT   string   `json:"errt,omitempty"`
 	ErrAt  int      `json:"errat"` // as Fn.ErrAt: >0 = the error result is not the last result
 	Invoke bool     `json:"invoke"`
 	Kind   string   `json:"kind"` // ctor | deco | invoke
@@ -39,7 +40,7 @@ func init() {
 		t := reflect.TypeOf(mk(nil, nil))
 		bankTypes = append(bankTypes, t)
 		// sanity: the declared signature must be what the IR spec describes
-		want := fnType(&Fn{P: BankSpecs[i].P, R: BankSpecs[i].R, Err: BankSpecs[i].Err, ErrAt: BankSpecs[i].ErrAt, Err2: BankSpecs[i].Err2})
+		want := fnType(&Fn{P: BankSpecs[i].P, R: BankSpecs[i].R, Err: BankSpecs[i].Err, ErrAt: BankSpecs[i].ErrAt, Err2: BankSpecs[i].Err2, ErrT: BankSpecs[i].ErrT})
 		if want.NumIn() != t.NumIn() || want.NumOut() != t.NumOut() {
 			panic(fmt.Sprintf("bank entry %d: signature %v does not match its spec %v", i, t, want))
 		}
@@ -49,7 +50,7 @@ func init() {
 // BankFn instantiates bank entry i as an IR function with the given id.
 func BankFn(i, id int) *Fn {
 	s := BankSpecs[i]
-	return &Fn{ID: id, P: s.P, R: s.R, Err: s.Err, ErrAt: s.ErrAt, Err2: s.Err2, Bank: i + 1}
+	return &Fn{ID: id, P: s.P, R: s.R, Err: s.Err, ErrAt: s.ErrAt, Err2: s.Err2, ErrT: s.ErrT, Bank: i + 1}
 }
 
 // BankName is the function name dig reports for bank entry i (closure
